@@ -6,7 +6,7 @@ from harness import tie
 PID = "C46"
 EP = 1
 TIE_IMPORTS = ("From LunaLib Require Import ReachDep.\n"
-               "From LunaModel Require Import SsIn SsIn_proofs.\n")
+               "From LunaModel Require Import SsIn SsIn_proofs SsInTp.\n")
 
 IN_PORTS = ["valid", "last", "payload", "tx_ready", "ack", "hep", "retry", "nseq", "nump", "hs_ready", "hs_done"]
 OUT_PORTS = ["ready", "tx_valid", "tx_first", "tx_last", "tx_payload", "tx_zlp", "tx_length", "tx_seq", "tx_ep",
@@ -26,9 +26,15 @@ ASSUMPTIONS = [
     "contract every timing, every retry / acknowledge / NumP choice and every tx.ready pattern is covered",
     "the header of a data packet is read in the cycle tx.valid rises (that is when DataPacketTransmitter latches it), a ZLP's in "
     "the cycle of the tx_zlp strobe",
-    "R tie: max_packet_size = 8, SEQUENCE_NUMBER_BITS = 2 (class attribute), state-dependent input alphabet SsIn.ss_alpha "
-    "(payload words from {0x11223344, 0xAABBCCDD}, every valid mask, next_sequence in {seq, seq+1, seq+2}, ACKs for this and "
-    "for another endpoint); other sizes and random 32-bit data: correspondence + referee as runtime oracle",
+    "R tie configurations: max_packet_size = 8 (two words per buffer), SEQUENCE_NUMBER_BITS (a class attribute of the "
+    "endpoint) = 1 in the quick tier, 1 and 2 in the thorough tier; input alphabets SsIn.ss_alpha depend on the model state: only "
+    "inputs the contract allows in that state, and both values of an input only where the module can look at it. Control profile "
+    "(3): stream masks 1111 / 1111+last / 0011+last with payload word 0, IN request, ACK with NumP 0/1, retry by flag and by "
+    "repeated sequence number, ACK TPs for another endpoint, tx.ready and generator ready/done both ways; data profile (1, "
+    "thorough): full words whose payload tells the buffer position. Inputs outside these alphabets (random 32-bit data, masks "
+    "0001/0111, other sizes) are covered by correspondence and by the referee as runtime oracle, not by the R theorem",
+    "integrated target ssin_tp_*: the endpoint wired to the real TransactionPacketGenerator; there the generator contract above "
+    "is checked (not assumed) and the headers handed to the link layer are checked to be NRDY/ERDY TPs of this endpoint",
 ]
 
 
@@ -53,6 +59,43 @@ def mk(mps, sb=5, role="corr"):
     return t
 
 
+def mk_tp(mps):
+    """The endpoint wired to the real TransactionPacketGenerator (handshakes_out = generator interface)."""
+    def build():
+        from amaranth import Elaboratable, Module
+        from luna.gateware.usb.usb3.endpoints.stream import SuperSpeedStreamInEndpoint
+        from luna.gateware.usb.usb3.protocol.transaction import TransactionPacketGenerator
+
+        class Wrap(Elaboratable):
+            def __init__(self):
+                self.ep = SuperSpeedStreamInEndpoint(endpoint_number=EP, max_packet_size=mps)
+                self.gen = TransactionPacketGenerator()
+            def elaborate(self, platform):
+                m = Module()
+                m.submodules.ep = self.ep; m.submodules.gen = self.gen
+                ho = self.ep.interface.handshakes_out; gi = self.gen.interface
+                m.d.comb += [gi.endpoint_number.eq(ho.endpoint_number), gi.retry_required.eq(ho.retry_required),
+                             gi.next_sequence.eq(ho.next_sequence), gi.send_ack.eq(ho.send_ack),
+                             gi.send_stall.eq(ho.send_stall), gi.send_nrdy.eq(ho.send_nrdy),
+                             gi.send_erdy.eq(ho.send_erdy), ho.ready.eq(gi.ready), ho.done.eq(gi.done)]
+                return m
+        w = Wrap(); d = w.ep; g = w.gen
+        s = d.stream; i = d.interface; hi = i.handshakes_in; ho = i.handshakes_out; hs = g.header_source
+        ins = [("valid", s.valid), ("last", s.last), ("payload", s.payload), ("tx_ready", i.tx.ready),
+               ("ack", hi.ack_received), ("hep", hi.endpoint_number), ("retry", hi.retry_required),
+               ("nseq", hi.next_sequence), ("nump", hi.number_of_packets), ("hq_ready", hs.ready), ("address", g.address)]
+        outs = [("ready", s.ready), ("tx_valid", i.tx.valid), ("tx_first", i.tx.first), ("tx_last", i.tx.last),
+                ("tx_payload", i.tx.payload), ("tx_zlp", i.tx_zlp), ("tx_length", i.tx_length),
+                ("tx_seq", i.tx_sequence_number), ("tx_ep", i.tx_endpoint_number), ("tx_dir", i.tx_direction),
+                ("send_nrdy", ho.send_nrdy), ("send_erdy", ho.send_erdy), ("ho_ep", ho.endpoint_number),
+                ("gen_ready", g.interface.ready), ("gen_done", g.interface.done), ("hdr_valid", hs.valid),
+                ("dw0", hs.header.dw0), ("dw1", hs.header.dw1)]
+        return w, ins, outs
+    t = Target(f"ssin_tp_m{mps}", build)
+    t.params = dict(mps=mps, sb=5); t.role = "tp"
+    return t
+
+
 # R configurations: (sb = SEQUENCE_NUMBER_BITS, alphabet profile of SsIn.ss_alpha)
 R_QUICK = [(1, 3)]
 R_THOROUGH = [(1, 3), (2, 3), (2, 1)]
@@ -73,7 +116,8 @@ def targets(tier):
     sbs = sorted({sb for sb, _ in r_configs(tier)})
     ts = [mk(8, sb, "R") for sb in sbs]
     sizes = [12, 1024] if tier == "quick" else [8, 12, 16, 20, 64, 512, 1024]
-    return ts + [mk(m) for m in sizes]
+    tps = [mk_tp(16)] if tier == "quick" else [mk_tp(8), mk_tp(16), mk_tp(1024)]
+    return ts + [mk(m) for m in sizes] + tps
 
 
 # ---------------------------------------------------------------------------------------------------
@@ -121,9 +165,17 @@ class Script:
         hstate = "poll"; exp = 0; timer = rng.randint(0, 8); waited = 0
         # generator
         gen_busy = 0
+        tp = self.t.role == "tp"          # the real generator is part of the target
+        outsig = dict(self.outs)
+        address = rng.choice([0, 5, 127]); p_hq = rng.choice([1.0, 0.6, 0.25])
         for t in range(ncyc):
             c = dict(valid=0, last=0, payload=0, tx_ready=int(rng.random() < p_ready), ack=0, hep=EP, retry=0,
-                     nseq=0, nump=0, hs_ready=0, hs_done=0)
+                     nseq=0, nump=0)
+            if tp:
+                c.update(hq_ready=int(rng.random() < p_hq), address=address)
+                gen_busy = 0 if ctx.get(outsig["gen_ready"]) else 1      # a function of the generator's state only
+            else:
+                c.update(hs_ready=0, hs_done=0)
             # ---- stream producer
             if pause > 0:
                 pause -= 1
@@ -135,8 +187,10 @@ class Script:
                     cur = ((1 << n) - 1, int(remaining <= 4), word())
             if cur is not None and not (sloppy and rng.random() < 0.1):
                 c["valid"], c["last"], c["payload"] = cur
-            # ---- generator
-            if gen_busy > 0:
+            # ---- generator (scripted, unless it is part of the target)
+            if tp:
+                pass
+            elif gen_busy > 0:
                 c["hs_ready"] = 0; c["hs_done"] = int(gen_busy == 1)
             else:
                 c["hs_ready"] = 1
@@ -184,14 +238,19 @@ class Script:
                     if remaining == 0:
                         remaining = new_transfer(); pause = rng.choice([0, 0, 1, 2, 6, 3 * mps // 4])
                 cur = None
-            took = c["hs_ready"] and (out["send_nrdy"] or out["send_erdy"])
-            took_erdy = c["hs_ready"] and out["send_erdy"]
-            if gen_busy > 0:
-                gen_busy -= 1
-                if gen_busy == 0 and hstate == "wait_erdy_tp":
+            g_ready = out["gen_ready"] if tp else c["hs_ready"]
+            took = g_ready and (out["send_nrdy"] or out["send_erdy"])
+            took_erdy = g_ready and out["send_erdy"]
+            if tp:
+                if out["gen_done"] and hstate == "wait_erdy_tp":
                     hstate = "poll"; timer = rng.choice([0, 0, 1, 4])
-            if took:
-                gen_busy = rng.randint(*gen_delay)
+            else:
+                if gen_busy > 0:
+                    gen_busy -= 1
+                    if gen_busy == 0 and hstate == "wait_erdy_tp":
+                        hstate = "poll"; timer = rng.choice([0, 0, 1, 4])
+                if took:
+                    gen_busy = rng.randint(*gen_delay)
             if hstate == "wait_resp":
                 if took and not took_erdy:
                     hstate = "wait_erdy"
@@ -292,13 +351,21 @@ def _confirm(ob, ref):
     return confirm
 
 
-def obligations(targets, tier):
+def rlock_dep_once(*a, **k):
+    """harness.tie_dep.rlock_dep, with the closure lemma evaluated once (by the kernel's VM at Qed) instead of twice
+    (tactic + Qed): same statement, same certified check, half the time."""
     from harness import tie_dep
+    ob = tie_dep.rlock_dep(*a, **k)
+    ob.thms = ob.thms.replace("Proof. vm_compute. reflexivity. Qed.", "Proof. vm_cast_no_check (@eq_refl bool true). Qed.", 1)
+    return ob
+
+
+def obligations(targets, tier):
     obs = []
     byname = {t.name: t for t in targets}
     for sb, prof in r_configs(tier):
         t = byname[f"ssin_m8_s{sb}"]
-        ob = tie_dep.rlock_dep(
+        ob = rlock_dep_once(
             f"ob_m8_s{sb}_p{prof}", t,
             St="ss_state", mstep=f"ss_step 8 {EP} {sb}", enc="ss_enc", dec="ss_dec", wf="ss_wf",
             dec_enc="ss_dec_enc", wf_step=f"(ss_wf_step 8 {EP} {sb} ltac:(lia) ltac:(lia))",
@@ -309,6 +376,15 @@ def obligations(targets, tier):
         obs.append(ob)
     for t in targets:
         mps, sb = t.params["mps"], t.params["sb"]
+        if t.role == "tp":
+            obs.append(tie.cmon(f"ref_{t.name}", t, mon=f"(xs_monN {mps} {EP} {sb})", m0="(ref_enc ref_init)",
+                                describe=f"endpoint + real TransactionPacketGenerator, max_packet_size={mps}: the referee over simulator "
+                                         f"traces, with the generator contract it otherwise assumes CHECKED against the real generator, and "
+                                         f"every header handed to the link layer an NRDY/ERDY TP of this endpoint"))
+            obs.append(tie.corr(f"corr_{t.name}", t, mstep=f"xs_step {mps} {EP} {sb}", m0="xs_init",
+                                describe=f"composition of the endpoint model and the C45 generator model vs simulator of the real "
+                                         f"composition, max_packet_size={mps}"))
+            continue
         obs.append(_ref_ob(t))
         obs.append(tie.corr(f"corr_{t.name}", t, mstep=f"ss_step {mps} {EP} {sb}", m0="ss_init",
                             describe=f"model vs simulator, all outputs every cycle, max_packet_size={mps}, "
@@ -338,6 +414,43 @@ def tie_theorem_names(targets, tier):
     return [f"C46_netlist_m8_s{sb}_p{prof}_meets_spec" for sb, prof in r_configs(tier)]
 
 
-LEVEL_TEXT = "in progress"
-LEVEL_NOTE = "in progress"
-TECHNIQUE = "in progress"
+LEVEL_TEXT = ("Machine-checked proof about a model of the endpoint, tied to the code. Specification = a referee (observer automaton, "
+              "SsIn.ref_step) that sees only the endpoint's interface: it records the stream words accepted and not yet acknowledged, the "
+              "sequence number the host expects and the host's protocol position, and judges every cycle: a data packet starts only as "
+              "the answer to an IN request (an ACK TP with NumP > 0 or a retry), is exactly the next packet of the stream (first "
+              "max_packet_size bytes, or everything up to the end of the transfer; zero-length when the transfer ended on a packet "
+              "boundary) with the expected sequence number, length, endpoint and direction in the cycle tx.valid rises, and offers its "
+              "words (byte masks, first/last) until each is taken; NRDY answers an IN request exactly when no packet is held; ERDY "
+              "exactly once after an NRDY, as soon as a packet is held; every IN request is answered at once (ZLP, NRDY) or by a data "
+              "packet two cycles later; the expected sequence number advances only with the host's acknowledgement, a retry re-requests "
+              "the same packet, an acknowledgement removes exactly that packet from the pending stream. "
+              "(1) C46_endpoint_meets_spec: for every max_packet_size (multiple of 4, 8..1024), endpoint number, sequence-number width and "
+              "EVERY input history the referee accepts the model's interface trace up to the first cycle (if any) in which the environment "
+              "(stream producer / host / generator contract, see assumptions) is broken -- invariant proof over the product of model and "
+              "referee, unbounded in trace length; C46_endpoint_meets_spec_io restates it on packed interface words. "
+              "(2) For max_packet_size 8 the netlist regenerated from /repo is proved equal to the model, all outputs, on every trace over "
+              "the state-dependent tie alphabets (certified product reachability), hence accepted by the referee "
+              "(C46_netlist_m8_s*_p*_meets_spec). (3) At max_packet_size 12 / 1024 (thorough: 8, 12, 16, 20, 64, 512, 1024) model and "
+              "simulator of the real module are compared on scripted sessions with random 32-bit data (correspondence, not a proof), and "
+              "the referee is evaluated over the simulator traces (runtime oracle).")
+LEVEL_NOTE = ("The unchanged tree VIOLATES the property: ./check C46 exits 1 on /repo and 0 with findings/C46-stream-in.diff applied "
+              "(LUNA_REPO copy; the 93 baseline tests pass with it). The model is the corrected behaviour. Defects of "
+              "SuperSpeedStreamInEndpoint confirmed on the simulator (replays under findings/): sequence number not advanced when the ACK "
+              "finds no further packet (C46-seq); header fields (length, sequence, endpoint) not driven in the cycle tx.valid rises for "
+              "one-word packets (C46-oneword-header) and for every ZLP (C46-zlp-header); last word withdrawn although tx.ready was low "
+              "(C46-lastword-backpressure); an IN request carried by an ACK TP that finds no data is never answered (C46-no-nrdy); "
+              "NRDY/ERDY requests carry endpoint number 0 (C46-nrdy-endpoint); further, by reading + model: a retried ZLP advances the "
+              "sequence number, erdy_required is never cleared (spurious ERDYs), REQUEST_IN_TOKEN takes the NRDY's `done` pulse for the "
+              "ERDY's, and an ACK that coincides with the last word of a short transfer dead-locks the endpoint. "
+              "Limits: the R tie is at max_packet_size 8 with SEQUENCE_NUMBER_BITS 1 (quick) / 1 and 2 (thorough) over restricted "
+              "alphabets (quick: control profile with payload word 0; the data path is then covered by correspondence only; thorough adds "
+              "a data profile); the handshake generator is represented by its interface contract (C45), the endpoint multiplexer "
+              "(protocol/endpoint.py, not anchored) is not modelled -- note that it forwards handshakes_out only for send_ack/send_stall, "
+              "so NRDY/ERDY requests of a multiplexed endpoint never reach the generator. Safety + bounded response only: that `ready` is "
+              "eventually raised is covered by correspondence, not by the referee. "
+              "Trusted: Coq kernel + vm_compute, Amaranth elaboration, nir2coq.py/Netlist.v (validated each run against pysim), the "
+              "environment contract coded in SsIn.env_phase.")
+TECHNIQUE = ("Rocq proof: inductive invariant between a code-shaped endpoint model and a specification referee (observer automaton), "
+             "parametric in max_packet_size and unbounded in time; certified product-reachability (state-dependent alphabet) against the "
+             "netlist regenerated from source; simulator correspondence and the referee as runtime oracle at realistic sizes; "
+             "closed-loop scripted host / producer / generator")
